@@ -16,6 +16,7 @@ real solvers and --dump-smt-directory.  For every reported model:
 from __future__ import annotations
 
 import glob
+import json
 import itertools
 import os
 import re
@@ -42,6 +43,7 @@ SOLVERS = {
 }
 
 NO_HASH = [g for g in testgen.GUARDS_STATIC if "keccak" not in g]
+LEN_SINGLE = [{"default_array_lengths": "2", "default_bytes_lengths": "65"}, {"default_array_lengths": "3", "default_bytes_lengths": "3"}]
 
 
 def gen_tests(tier):
@@ -72,6 +74,9 @@ def gen_tests(tier):
         for g in dyn:
             for sv in SOLVERS:
                 out.append((sv, {"sig": sig, "shape": "single", "guards": [g], "fails": ["panic1"]}))
+            # the same with a single length candidate per dynamic parameter (no branching over lengths)
+            for k, extra in enumerate(LEN_SINGLE):
+                out.append((list(SOLVERS)[(len(out) + k) % 3], {"sig": sig, "shape": "single", "guards": [g], "fails": ["panic1"], "extra": extra}))
         for g1, g2 in itertools.product(G[:6] + dyn, dyn):
             if g1 != g2:
                 out.append((list(SOLVERS)[len(out) % 3], {"sig": sig, "shape": "nested", "guards": [g1, g2], "fails": ["assert"]}))
@@ -85,11 +90,13 @@ NSHARDS = 64
 def shards(tier, seed):
     by = {}
     for sv, t in gen_tests(tier):
-        by.setdefault(sv, []).append(t)
+        t = dict(t)
+        extra = t.pop("extra", None)
+        by.setdefault((sv, json.dumps(extra, sort_keys=True)), []).append(t)
     groups = []
-    for sv, ts in by.items():
+    for (sv, extra), ts in by.items():
         for i in range(0, len(ts), PER_CONTRACT):
-            groups.append({"solver": sv, "tests": ts[i : i + PER_CONTRACT], "timeout": "1s" if tier == "quick" else "5s"})
+            groups.append({"solver": sv, "tests": ts[i : i + PER_CONTRACT], "timeout": "1s" if tier == "quick" else "5s", "extra": json.loads(extra)})
     groups = rotate(groups, seed)
     return [{"groups": groups[i::NSHARDS]} for i in range(NSHARDS) if groups[i::NSHARDS]]
 
@@ -221,12 +228,17 @@ def fix_bytes(vals, sig, bounds):
 # ---------------------------------------------------------------------------
 
 
-def check_group(acc, solver, tests, timeout="1s"):
+def check_group(acc, solver, tests, timeout="1s", extra=None, dump=None, reused=False, first=None):
+    """extra: further options (length candidates).  dump: a --dump-smt-directory that outlives this call (as a user's would);
+    reused: it already holds the files of an earlier contract with the same test names"""
     from props.c03_pass import parse_bounds
 
     contract = testgen.mk_contract(tests)
-    dump = tempfile.mkdtemp(prefix="dump_", dir=e2e.workdir())
+    own_dump = dump is None
+    if own_dump:
+        dump = tempfile.mkdtemp(prefix="dump_", dir=e2e.workdir())
     opts = dict(SOLVERS[solver])
+    opts.update(extra or {})
     opts.update({"dump_smt_directory": dump, "solver_timeout_assertion": timeout})
     try:
         rr = e2e.run_contract(contract, options=opts)
@@ -244,7 +256,7 @@ def check_group(acc, solver, tests, timeout="1s"):
             acc.count("tests")
             acc.count(f"rc_{r.exitcode}")
             name = testgen.test_str(t)
-            case = {"solver": solver, "test": t, "timeout": timeout}
+            case = {"solver": solver, "test": t, "timeout": timeout, "extra": extra, "group": tests if reused else None, "first": first}
             # solver replies on disk for this test
             replies = {}
             for f in sorted(glob.glob(os.path.join(dump, testgen.test_name(i), "*.smt2.out"))):
@@ -273,12 +285,14 @@ def check_group(acc, solver, tests, timeout="1s"):
                 acc.count("models")
                 reported = {k: v.value for k, v in m.model.items()}
                 src = [fn for fn, mm in sat_models.items() if mm == reported]
-                if not src:
+                if not src and reused:
+                    src = []  # the directory also holds replies of the earlier contract: the file mapping is not checked in this pass
+                elif not src:
                     acc.violation(f"values:{name}:{solver}", f"[{name}] solver={solver}: reported model {fmt(reported)} equals none of the solver replies {[(fn, fmt(mm)) for fn, mm in sat_models.items()]}", case)
                     continue
                 acc.count("models_matched_to_solver_output")
                 abstract = ["f_evm_" in replies[fn] for fn in src]
-                if m.is_valid and all(abstract):
+                if m.is_valid and src and all(abstract):
                     acc.violation(f"valid-abstract:{name}:{solver}", f"[{name}] solver={solver}: model labelled valid although the solver output ({src}) mentions an f_evm_ abstraction", case)
                 # printed values
                 for full, v in reported.items():
@@ -304,7 +318,8 @@ def check_group(acc, solver, tests, timeout="1s"):
                 if len(acc.samples) < 2:
                     acc.sample({"test": name, "solver": solver, "model": fmt(reported), "source_file": src, "reference_outcome": o.kind})
     finally:
-        shutil.rmtree(dump, ignore_errors=True)
+        if own_dump:
+            shutil.rmtree(dump, ignore_errors=True)
 
 
 def hexs(v):
@@ -322,7 +337,19 @@ def run_shard(shard):
     hdriver.install_uid()
     acc = Acc(max_violations=30)
     for g in shard["groups"]:
-        check_group(acc, g["solver"], g["tests"], g.get("timeout", "1s"))
+        check_group(acc, g["solver"], g["tests"], g.get("timeout", "1s"), g.get("extra"))
+    # one --dump-smt-directory kept across two different contracts with the same test names (check_0, check_1, ...): every query
+    # must be written afresh, and every counterexample must still reproduce
+    plain = [g for g in shard["groups"] if not g.get("extra")]
+    if len(plain) >= 2:
+        a, b = plain[0], plain[1]
+        shared = tempfile.mkdtemp(prefix="dumpshared_", dir=e2e.workdir())
+        try:
+            check_group(acc, a["solver"], a["tests"], a.get("timeout", "1s"), dump=shared)
+            check_group(acc, a["solver"], b["tests"], a.get("timeout", "1s"), dump=shared, reused=True, first=a["tests"])
+            acc.count("contracts_run_into_a_reused_dump_directory")
+        finally:
+            shutil.rmtree(shared, ignore_errors=True)
     return acc.result()
 
 
@@ -339,6 +366,7 @@ def coverage(tier, merged):
         "models_labelled_invalid": c.get("models_labelled_invalid", 0),
         "sat_replies_reparsed": c.get("sat_replies_reparsed", 0),
         "sat_replies_with_abstraction": c.get("sat_replies_with_abstraction", 0),
+        "contracts_run_into_a_reused_dump_directory": c.get("contracts_run_into_a_reused_dump_directory", 0),
         "verdicts_by_exitcode": {k[3:]: v for k, v in c.items() if k.startswith("rc_")},
         "exhaustive": not merged["capped"],
         "rule": "states = distinct (solver syntax, failing test) pairs with a valid model; transitions = tests run end to end; traces validated = valid counterexamples "
@@ -350,6 +378,14 @@ def replay(case):
     hdriver.install_logging()
     hdriver.install_uid()
     acc = Acc()
-    check_group(acc, case["solver"], [case["test"]], case.get("timeout", "5s"))
+    if case.get("first"):
+        shared = tempfile.mkdtemp(prefix="dumpshared_", dir=e2e.workdir())
+        try:
+            check_group(Acc(), case["solver"], case["first"], case.get("timeout", "5s"), dump=shared)
+            check_group(acc, case["solver"], case["group"], case.get("timeout", "5s"), dump=shared, reused=True, first=case["first"])
+        finally:
+            shutil.rmtree(shared, ignore_errors=True)
+    else:
+        check_group(acc, case["solver"], [case["test"]], case.get("timeout", "5s"), case.get("extra"))
     v = acc.result()["violations"]
     return {"violated": bool(v), "obs": [x["what"] for x in v][:3], "key": v[0]["key"] if v else ""}
